@@ -176,7 +176,12 @@ def check_case(ctx: Ctx, c: dict):
         comment = c.get("c", "")
         level = c.get("sh", 0)
         cb = comment.encode("utf-8")
-        script = export_impl(data, comment)
+        try:
+            script = export_impl(data, comment)
+        except Exception as e:      # the exporter itself fails on this input
+            ctx.mismatch("script text", c, "exception:" + type(e).__name__, d.ask(f"export {hx(data)} {hx(cb)}"))
+            ctx.violation("write_to_shellscript raises instead of producing a script", c, repr(e)[:200], key="exporter-raises")
+            return
         ctx.eq("script text", c, script.hex(), unhx(d.ask(f"export {hx(data)} {hx(cb)}")).hex())
         ctx.count("b64-run-accepted" if b"$(" in script else "no-b64-run")
         if data[:1] == b"-":
@@ -188,16 +193,8 @@ def check_case(ctx: Ctx, c: dict):
             ctx.count("comment:own-line" if script.startswith(b"# ") else "comment:inline")
             plain = export_impl(data, "")
             ctx.eq("script text (no comment)", c, plain.hex(), unhx(d.ask(f"export {hx(data)} -")).hex())
-            ok2 = judge_script(ctx, dict(c, c=""), plain, data, level, "no comment")
-            # comments never change the command: the script with the comment removed is the plain script
-            lines = script.decode("utf-8").split("\n")
-            cmds = [l for l in lines if l and not l.startswith("# ")]
-            m = CMD_RE.match(cmds[0]) if len(cmds) == 1 else None
-            if m is None or (m.group(1) + "\n").encode("utf-8") != plain:
-                if ok2:
-                    ctx.violation("the comment changed the command", c, {"with": script[:300].decode("utf-8", "replace"),
-                                                                        "without": plain[:300].decode("utf-8", "replace")},
-                                  key="comment-changes-command")
+            # comments never change the output: the plain script is judged the same way
+            judge_script(ctx, dict(c, c=""), plain, data, level, "no comment")
         else:
             ctx.count("comment:none")
     elif k == "pyb64":
